@@ -28,7 +28,7 @@ agreement and the never-contradict part; route 2 covers metavalues with VHDL's o
 the sampled stimuli.  Unsupported VHDL (memories = GenericMemoryEntity, tristate/inout, external
 nodes, anything unparsed) is COUNTED as unsupported, never reported as pass.
 """
-import sys, os, json, glob, hashlib, random, shutil, time
+import sys, os, json, glob, hashlib, random, shutil, time, re
 sys.path.insert(0, os.path.join(os.path.dirname(os.path.abspath(__file__)), "..", "lib"))
 import vcommon as V, circ, designgen as G
 import C02_vhdl as P, C02_vhdl_lift as L, C02_vhdl_sim as S
@@ -295,7 +295,7 @@ def vhdl_files(ddir):
     return [str(ddir / l.strip()) for l in open(fl) if l.strip()]
 
 
-def analyse(did, out):
+def analyse(did, out, progl=()):
     """-> dict with the python-side results of one exported design"""
     r = dict(id=did, status="ok", lift=None, interp=None, mismatches=[], known=[], stats={})
     tr = circ.parse_traces(out / f"{did}.trace")
@@ -339,7 +339,9 @@ def analyse(did, out):
             m = S.replay_trace(el, t, reset_active=act, stats=r["stats"], meta=meta)
             if m:
                 m["trace"] = tag
-                if known_pessimism(el, t, act, m, meta):
+                key = classify_known(el, t, act, m, meta, progl)
+                if key:
+                    m["known_key"] = key
                     r["known"].append(m)
                 else:
                     m["stimulus"] = ("H:" if "meta" in t else "") + circ.stim_of(t)
@@ -349,13 +351,14 @@ def analyse(did, out):
         if tvf.exists() and tbf.exists():
             tv = S.replay_testvectors(el, tvf.read_text(), tbf.read_text())
             r["tv"] = dict(checks=tv["checks"], sets=tv["sets"], failed=tv["failed"], edges=tv["edges"], failed_known=0)
-            if tv["failed"] and all(S.std_match(S.to_x01(f["observed"]).replace("X", "-"), f["expected"]) for f in tv["failed"]):
-                # only pessimism (no CHECK contradicted by a defined VHDL bit): explained by the CASE/OTHERS export?
-                if not S.replay_testvectors(el, tvf.read_text(), tbf.read_text(), case_merge=True)["failed"]:
+            if tv["failed"]:
+                key = classify_known_tv(el, tv, tvf.read_text(), tbf.read_text(), progl)
+                if key:
                     r["tv"]["failed_known"] = len(tv["failed"])
                     r["tv"]["failed"] = []
-                    if not r["known"]:
-                        r["known"].append(dict(tv["failed"][0], cycle="t=%dps" % tv["failed"][0]["time_ps"], inputs="(test vector replay)", trace="testvectors"))
+                    if not any(k.get("known_key") == key for k in r["known"]):
+                        r["known"].append(dict(tv["failed"][0], cycle="t=%dps" % tv["failed"][0]["time_ps"], inputs="(test vector replay)",
+                                               trace="testvectors", known_key=key))
         r["interp"] = "ok"
     except P.Unsupported as ex:
         r["interp"] = "unsupported"; r["interp_reason"] = str(ex)
@@ -369,11 +372,70 @@ def period_trace_usable(t):
     return bool(t.get("cycles")) and sum(1 for e in t["cycles"][0][2] if e[0] == "R") <= 1
 
 
-def known_pessimism(el, t, act, m, meta=None):
-    """the known finding `mux-undefined-selector-case-others`: the VHDL is only LESS defined than the simulator (no defined
-    bit contradicts) and the difference disappears when a CASE whose selector contains a metavalue merges its branches like
-    Node_Multiplexer does instead of taking WHEN OTHERS (that switch changes nothing for fully defined selectors)"""
-    return (not m["contradiction"]) and S.replay_trace(el, t, reset_active=act, case_merge=True, meta=meta) is None
+LISTED = set()       # keys of KNOWN_FINDINGS.txt lines for C02 (set in main)
+
+
+def classify_known(el, t, act, m, meta, progl):
+    """-> None (genuine) or the key of the recorded known finding that explains mismatch `m` of trace `t`.  Each class is
+    accepted only if (a) its structural precondition holds and (b) the WHOLE trace replays without any mismatch once the
+    interpreter removes exactly that one deviation from VHDL semantics (and nothing else):
+      mux-undefined-selector-case-others   no defined bit contradicts; a CASE whose selector holds a metavalue merges its branches
+      mem-exact-undefined-read-address     the design has an EXACT-mode memory; memory(to_integer(a)) with a metavalue in `a` yields
+                                           the merge of the candidate words instead of word 0 (so: that sample's read address had an
+                                           undefined bit, the VHDL value was word 0 and the simulator value is the merge)
+      reg-output-port-no-initial-value     the design has a register assigned directly to an OUT port of a sub-entity; the mismatch
+                                           lies before the first clock edge such a register reacts to, every differing VHDL bit is
+                                           'U', and giving those registers the reset value of their reset branch as initial value
+                                           reproduces the simulator (so: the simulator showed the reset value)"""
+    def clean(**o):
+        cm = o.pop("case_merge", False)
+        return S.replay_trace(el, t, reset_active=act, case_merge=cm, meta=meta, opts=o) is None
+    if KNOWN_CASE in LISTED and not m["contradiction"] and clean(case_merge=True):
+        return KNOWN_CASE
+    exact_mem = any(l.split()[0] == "mem" and "exact" in l.split()[4:] for l in progl if l.split())
+    if KNOWN_MEM_EXACT in LISTED and exact_mem and not m["stimulus_fully_defined"]:
+        if clean(mem_exact_merge=True):
+            return KNOWN_MEM_EXACT
+        if KNOWN_CASE in LISTED and clean(mem_exact_merge=True, case_merge=True):
+            return KNOWN_MEM_EXACT
+    if KNOWN_REG_PORT in LISTED and not m["contradiction"] and m.get("observed") and m.get("expected"):
+        pr = S.Interp(el).port_regs
+        if pr:
+            kinds = {e for _, e in pr}
+            trig = {"E"} if kinds == {"rising"} else {"e"} if kinds == {"falling"} else {"E", "e"}
+            before_edge = not any(ev in trig for c in t["cycles"][:m["cycle"] + 1] for ev in c[2])
+            only_u = all(o == "U" for e_, o in zip(m["expected"], m["observed"]) if e_ in "01" and S.to_x01(o) != e_)
+            if before_edge and only_u and (clean(port_reg_init=True) or (KNOWN_CASE in LISTED and clean(port_reg_init=True, case_merge=True))):
+                return KNOWN_REG_PORT
+    return None
+
+
+def classify_known_tv(el, tv, tv_text, tb_text, progl):
+    """same for failed CHECKs of the exporter's test vectors -> key or None"""
+    failed = tv["failed"]
+    pess = all(S.std_match(S.to_x01(f["observed"]).replace("X", "-"), f["expected"]) for f in failed)
+
+    def clean(**o):
+        cm = o.pop("case_merge", False)
+        return not S.replay_testvectors(el, tv_text, tb_text, case_merge=cm, opts=o)["failed"]
+    if KNOWN_CASE in LISTED and pess and clean(case_merge=True):
+        return KNOWN_CASE
+    exact_mem = any(l.split()[0] == "mem" and "exact" in l.split()[4:] for l in progl if l.split())
+    if KNOWN_MEM_EXACT in LISTED and exact_mem and (clean(mem_exact_merge=True) or clean(mem_exact_merge=True, case_merge=True)):
+        return KNOWN_MEM_EXACT
+    if KNOWN_REG_PORT in LISTED and pess and tv.get("port_regs"):
+        kinds = {e for _, e in tv["port_regs"]}
+        first = None
+        for c, half in tv["clock_half_periods_ps"].items():
+            init = tv["clock_init"].get(c, "1")
+            # toggles at k*half; the first toggle is a falling edge iff the clock starts high
+            t_first = {"falling": half if init == "1" else 2 * half, "rising": half if init != "1" else 2 * half}
+            tt = min(t_first[k] for k in ("rising", "falling") if k in kinds or "both" in kinds)
+            first = tt if first is None else min(first, tt)
+        if first is not None and all(f["time_ps"] < first and "U" in f["observed"] for f in failed) and \
+                (clean(port_reg_init=True) or clean(port_reg_init=True, case_merge=True)):
+            return KNOWN_REG_PORT
+    return None
 
 
 def reset_polarity(el):
@@ -418,6 +480,9 @@ def main():
     known_case_listed = any(k.startswith(KNOWN_CASE) for k in known)
     global ALLOW_EXACT
     ALLOW_EXACT = any(k.startswith(KNOWN_MEM_EXACT) for k in known)
+    for key in (KNOWN_CASE, KNOWN_MEM_EXACT, KNOWN_REG_PORT):
+        if any(k.startswith(key) for k in known):
+            LISTED.add(key)
     known_shift_lit_listed = any(k.startswith(KNOWN_SHIFT_LIT) for k in known)
     known_shift_lit = []
 
@@ -457,7 +522,7 @@ def main():
         if rc != 0:
             V.infra_error(f"export harness failed rc={rc}: {o[-2000:]}")
         for i in ids:
-            results[(mode, i)] = analyse(i, out)
+            results[(mode, i)] = analyse(i, out, prog[i])
         # verified checker + ties
         cmds, cmds_l = [], []
         for i in ids:
@@ -550,7 +615,7 @@ def main():
                 continue
             m = S.replay_trace(el, t, reset_active=act, meta=meta)
             if m:
-                if known_pessimism(el, t, act, m, meta):
+                if classify_known(el, t, act, m, meta, prog[did]):
                     continue
                 m["trace"] = tag
                 m["stimulus"] = ("H:" if "meta" in t else "") + circ.stim_of(t)
@@ -583,30 +648,15 @@ def main():
                                    "defined values under this stimulus: either an undefined-value difference (lifted netlist uses gatery X "
                                    "semantics) or the two front-end routes disagree", vhdl=excerpt(WORK / ("run_" + mode), did), nofail=True))
     # (2) interpreter mismatches on the recorded traces / test vectors
-    known_exact, known_regport = [], []
-    regport_listed = any(k.startswith(KNOWN_REG_PORT) for k in known)
     for (mode, did), a in results.items():
-        if regport_listed and a["mismatches"] and all(
-                m["cycle"] == 0 and not m["contradiction"] and m.get("observed") and
-                all(o == "U" for e_, o in zip(m["expected"], m["observed"]) if e_ in "01" and S.to_x01(o) != e_) for m in a["mismatches"]):
-            disagreements += 1
-            known_regport.append((did, a["mismatches"][0]))
-            a["mismatches"] = []
-            if a.get("tv"):
-                a["tv"]["failed"] = []
-        if ALLOW_EXACT and a["mismatches"] and any(l.startswith("mem ") and " exact" in l for l in prog[did]) and \
-                not any(m["stimulus_fully_defined"] for m in a["mismatches"]):
-            disagreements += 1
-            known_exact.append((did, a["mismatches"][0]))
-            a["mismatches"] = []
         for m in a["mismatches"][:1]:
             disagreements += 1
             violations.append(dict(kind="exported VHDL does not reproduce a defined output value of the reference simulator (VHDL interpreter replay of a real trace)",
                                    design=did, mode=mode, program=prog[did], stimulus=m.get("stimulus"), failing=m,
                                    vhdl=excerpt(WORK / ("run_" + mode), did, m["pin"])))
-        for m in a["known"][:1]:
+        for key in dict.fromkeys(m.get("known_key") for m in a["known"]):
             disagreements += 1
-            knowns.append((did, mode, m))
+            knowns.append((did, mode, next(m for m in a["known"] if m.get("known_key") == key)))
         tv = a.get("tv")
         if tv and tv["failed"] and not a["mismatches"]:
             disagreements += 1
@@ -626,6 +676,18 @@ def main():
         if reason is None or any(v.get("design") == did for v in violations):
             continue
         disagreements += 1
+        mo = re.search(r"register (\S+) has reset value \S+ but no initial value", reason)
+        if mo and KNOWN_REG_PORT in LISTED and a.get("lift") == "error" and a.get("interp") == "ok":
+            # the lifter's structural view of the known finding: accepted only for registers assigned directly to a sub-entity OUT port
+            try:
+                el_ = P.load(vhdl_files(WORK / ("run_" + mode) / did))
+                names = {el_.nets[i].name for i, _ in S.Interp(el_).port_regs}
+            except (P.Unsupported, P.LiftError):
+                names = set()
+            if mo.group(1) in names:
+                if not any(k[0] == did and k[1] == mode and k[2].get("known_key") == KNOWN_REG_PORT for k in knowns):
+                    knowns.append((did, mode, dict(known_key=KNOWN_REG_PORT, cycle=0, pin=mo.group(1), expected="reset value", observed="U (no initial value)", inputs="(lifter)")))
+                continue
         if known_shift_lit_listed and ("shift_left on slv" in reason or "shift_right on slv" in reason) and \
                 any(("SHIFT_LEFT(\"" in l or "SHIFT_RIGHT(\"" in l) for f in vhdl_files(WORK / ("run_" + mode) / did) for l in open(f, errors="replace")):
             known_shift_lit.append((did, mode))
@@ -700,7 +762,7 @@ def main():
     rep.cov["interpreter_bits_where_vhdl_is_more_defined"] = sum(a["stats"].get("vhdl_more_defined_bits", 0) for a in allr)
     rep.cov["testvector_checks_replayed"] = sum(a.get("tv", {}).get("checks", 0) for a in allr)
     rep.cov["testvector_checks_failed"] = sum(len(a.get("tv", {}).get("failed", [])) for a in allr)
-    rep.cov["known_x_pessimism_designs"] = len(knowns)
+    rep.cov["known_x_pessimism_designs"] = sum(1 for k in knowns if k[2].get("known_key") == KNOWN_CASE)
     rep.cov["sub_entity_instances"] = sum(max(0, a.get("instances", 1) - 1) for a in allr)
     rep.cov["blocks"] = sum(a.get("blocks", 0) for a in allr)
     agg = {}
@@ -725,7 +787,7 @@ def main():
         "route 2: VHDL metavalue rules (\"=\" on metavalues FALSE, X condition takes ELSE, CASE falls to OTHERS, arithmetic all-X) are modelled, but only the sampled stimuli are replayed",
         "dumped netlist and lifted netlist are each tied to the real ReferenceSimulator by per-cycle trace comparison (tie); circuit model: single clock, rising edge, reset schedule from the real simulator's event log",
         "clock edges: every design is additionally replayed on HALF-PERIOD traces (inputs change and outputs are sampled between every two clock edges, reset pins by their exported names), so the edge written in each exported process (rising_edge / falling_edge / 'event) is what decides when a register updates; designs with falling/both-edge registers or several reset pins on one clock pin are covered by this interpreter route only (the certificate checker's circuit model is single rising-edge clock, one reset pin)",
-        "memories (GenericMemoryEntity: array signal with the power-on aggregate `(k => \"..\", others => (others => 'X'))`, asynchronous and registered read ports, read latency registers, write ports on either edge) are executed by the interpreter only (lifter-unsupported): ROMs and RAMs with declared, partially defined power-on images (holes at the start / middle / end, single words, single bits; widths 1..9, depths 2..32) are read at every address by counter-driven ports; memories with `exact` undefined-address behaviour are excluded while the finding mem-exact-undefined-read-address is undecided; unsupported by both: tristate / inout pins, external nodes, generics, multi-clock designs; falling-edge clocks and designs wider than %d input bits are covered by the interpreter route only" % MAX_CERT_IN_BITS,
+        "memories (GenericMemoryEntity: array signal with the power-on aggregate `(k => \"..\", others => (others => 'X'))`, asynchronous and registered read ports, read latency registers, write ports on either edge) are executed by the interpreter only (lifter-unsupported): ROMs and RAMs with declared, partially defined power-on images (holes at the start / middle / end, single words, single bits; widths 1..9, depths 2..32) are read at every address by counter-driven ports; known findings mem-exact-undefined-read-address and reg-output-port-no-initial-value are accepted only when re-running the interpreter with exactly that one deviation removed reproduces the whole trace (see classify_known); unsupported by both: tristate / inout pins, external nodes, generics, multi-clock designs; falling-edge clocks and designs wider than %d input bits are covered by the interpreter route only" % MAX_CERT_IN_BITS,
         "register power-on: the lifter requires signal initial value == reset value (the netlist format has one value for both); the interpreter models VHDL initial values exactly",
         "designs are sampled by the generators; the theorem closes the stimulus and cycle quantifiers per validated design",
     ]
@@ -749,20 +811,12 @@ def main():
         broken.append(f"front-end routes disagree on {front_disagree[0]['id']}: certificate accepted but interpreter mismatch under a fully defined stimulus")
 
     # ---- report -----------------------------------------------------------------------------------
-    if knowns:
-        did, mode, m = knowns[0]
-        if known_case_listed:
-            rep.known(f"{KNOWN_CASE} ({len(knowns)} designs this run, e.g. {did} cycle {m['cycle']} pin {m['pin']}: simulator {m['expected']}, VHDL {m['observed']}, inputs {m['inputs']})")
-        else:
-            violations.insert(0, dict(kind="VHDL is less defined than the reference simulation: CASE .. WHEN OTHERS => X under an undefined mux selector",
-                                      design=did, mode=mode, program=prog[did], stimulus=m.get("trace"),
-                                      failing=m, vhdl=excerpt(WORK / ("run_" + mode), did, "CASE")))
-    if known_regport:
-        did, m = known_regport[0]
-        rep.known(f"{KNOWN_REG_PORT} ({len(known_regport)} exports this run, e.g. {did} sample 0 pin {m['pin']}: simulator {m['expected']}, VHDL {m['observed']})")
-    if known_exact:
-        did, m = known_exact[0]
-        rep.known(f"{KNOWN_MEM_EXACT} ({len(known_exact)} exports this run, e.g. {did} sample {m['cycle']} pin {m['pin']}: simulator {m['expected']}, VHDL {m['observed']}, inputs {m.get('inputs')})")
+    for key in (KNOWN_CASE, KNOWN_MEM_EXACT, KNOWN_REG_PORT):
+        ks = [k for k in knowns if k[2].get("known_key") == key]
+        if ks:
+            did, mode, m = ks[0]
+            rep.known(f"{key} ({len(ks)} exports this run, e.g. {did} sample {m['cycle']} pin {m['pin']}: simulator {m['expected']}, VHDL {m['observed']}, inputs {m.get('inputs')})")
+    rep.cov["known_finding_exports"] = {key: sum(1 for k in knowns if k[2].get("known_key") == key) for key in (KNOWN_CASE, KNOWN_MEM_EXACT, KNOWN_REG_PORT)}
     if known_shift_lit:
         rep.known(f"{KNOWN_SHIFT_LIT} ({len(known_shift_lit)} exports this run, e.g. {known_shift_lit[0][0]}: SHIFT_x(\"literal\", ..) inside a type conversion is ambiguous)")
     seen = 0
